@@ -19,6 +19,7 @@ Engine A over flat inputs.  Families:
   euclid-int    extended_euclidean / gcd / lcm (algorithm and IntegerTraits) on an integer box
   euclid-poly   extended_euclidean on all pairs of small polynomials (Z, Q and field-unit variants)
   fft           fft / ifft / sym_fft for every length on every unit vector + two dense vectors
+  fft-sign      the same vectors with the integer signs 2, -2, 3, -3, 0 (fft and sym_fft)
   sortuniq      polynomial.__mul__'s like-term merge on every short raw term list
   poly-pair     + - * divmod // % and exact division / on every pair of small sparse polynomials (+ mappers on results)
   poly-unary    neg, **, scalars on both sides, *base, mappers, evaluator entry points
@@ -97,6 +98,13 @@ MAP_REWRITE_TARGETS = (0, 3)
 # symbolic coefficients a_e on every support within 0..deg; every subset of them substituted
 SUBST_DEG = {"quick": 3, "thorough": 5}
 SUBST_VALUES = (0, 2)
+# mappers with extra arguments c -> c*factor + addend, each argument passed positionally or by
+# keyword: modes pp (both positional), pk (factor positional, addend keyword), kk (both keyword)
+MAP_AFFINE_FACTORS = (0, 1, 2)
+MAP_AFFINE_ADDENDS = (0, 1)
+MAP_ARG_MODES = ("pp", "pk", "kk")
+# fft / sym_fft with an integer sign other than +1 / -1 (z = exp(-2 pi i sign / n))
+FFT_OTHER_SIGNS = (2, -2, 3, -3, 0)
 
 SORTUNIQ_MAX_LEN = {"quick": 4, "thorough": 5}
 SORTUNIQ_EXPS = (0, 1, 2)
@@ -513,6 +521,18 @@ def _mapper(name):
             def map_constant(self, expr):
                 return 3 if expr == 2 else expr
         return TwoToThree()
+    if name.startswith("affine:"):
+        factor, addend, mode = _parse_affine(name)
+
+        class Affine(IdentityMapper):
+            def map_constant(self, expr, factor=1, addend=0):
+                return expr * factor + addend
+
+        if mode == "pp":
+            return lambda obj: Affine()(obj, factor, addend)
+        if mode == "pk":
+            return lambda obj: Affine()(obj, factor, addend=addend)
+        return lambda obj: Affine()(obj, factor=factor, addend=addend)
     if name.startswith("set:"):
         values, target = _parse_rewrite(name)
 
@@ -543,7 +563,24 @@ def rewrite_names(a):
                 yield "set:" + ",".join(map(str, z)) + f">{t}"
 
 
+def _parse_affine(name):
+    """'affine:2,1:pk' -> (2, 1, 'pk')"""
+    _, fa, mode = name.split(":")
+    f, a = fa.split(",")
+    return int(f), int(a), mode
+
+
+def affine_names():
+    for f in MAP_AFFINE_FACTORS:
+        for a in MAP_AFFINE_ADDENDS:
+            for mode in MAP_ARG_MODES:
+                yield f"affine:{f},{a}:{mode}"
+
+
 def _mapped_ref(name, qp):
+    if name.startswith("affine:"):
+        f, a, _ = _parse_affine(name)
+        return QPoly((e, c * f + a) for e, c in qp.terms())
     if name.startswith("set:"):
         values, target = _parse_rewrite(name)
         return QPoly((e, target if c in values else c) for e, c in qp.terms())
@@ -1010,6 +1047,34 @@ def probe_fft(n, vid):
     return fails
 
 
+def probe_fft_sign(n, vid, sign):
+    """fft and sym_fft with an integer sign other than +-1 against the documented definition."""
+    import numpy as np
+    from pymbolic.algorithm import fft
+    from pymbolic.mapper.evaluator import EvaluationMapper
+    x = fft_vector(n, vid)
+    tol = FFT_TOL * max(1.0, sum(abs(v) for v in x))
+    expected = ref.dft(x, sign)
+    fails = []
+    _tick(2)
+    try:
+        got = fft(np.array(x, dtype=np.complex128), sign=sign, complex_dtype=np.complex128)
+        d = _close(list(got), expected, tol)
+        if d:
+            fails.append(("fft", d))
+    except Exception as e:  # noqa: BLE001
+        fails.append(("fft-raises:" + excname(e), repr(e)))
+    try:
+        sym = sym_transform(n, sign)
+        em = EvaluationMapper({f"x{i}": x[i] for i in range(n)})
+        d = _close([em(s) for s in sym], expected, tol)
+        if d:
+            fails.append(("sym_fft", d))
+    except Exception as e:  # noqa: BLE001
+        fails.append(("sym_fft-raises:" + excname(e), repr(e)))
+    return fails
+
+
 def probe_fft_dtype(n, dtype, option, fn):
     """fft / ifft on an input array of the given dtype, with complex_dtype given or left out.
     Precision demanded: that of complex_dtype when given; otherwise that of a complex input and
@@ -1177,7 +1242,7 @@ def probe_ratop(op, p1, q1, p2, q2):
 def _is_label(name, kind):
     return (kind.startswith("unsupported-division:") or kind.startswith("unhashable")
             or kind == "diverges" or kind.startswith("wrong-big:")
-            or kind == "one-modified" or name in ("fft", "ratop", "fft-history", "fft-dtype"))
+            or kind == "one-modified" or name in ("fft", "ratop", "fft-history", "fft-dtype", "fft-sign"))
 
 
 PROBES = {
@@ -1201,13 +1266,14 @@ PROBES = {
     "fft-dtype": (probe_fft_dtype, ("fixed", "fixed", "fixed", "fixed")),
     "container": (probe_container, ("fixed", "poly")),
     "fft": (probe_fft, ("fixed", "fixed")),
+    "fft-sign": (probe_fft_sign, ("fixed", "fixed", "fixed")),
     "quot": (probe_quot, ("scalar", "scalar")),
     "ratop": (probe_ratop, ("fixed", "fixed", "fixed", "fixed", "fixed")),
 }
 # label-only: which fixed arguments go into the signature
 LABEL_ARGS = {"euclid-poly": (0,), "field-divmod": (0,), "eval": (0,), "quot": (), "divmod": (0,), "truediv": (0,),
               "fft": (0,), "ratop": (0,), "fft-history": (0,), "ipow-mutable": (0,),
-              "fft-dtype": (1, 2, 3)}
+              "fft-dtype": (1, 2, 3), "fft-sign": (0, 2)}
 
 
 def _decode(name, args):
@@ -1327,7 +1393,9 @@ class C19(Check):
             "x 3 complex_dtype options at each dtype length; every small polynomial built from 7 "
             "kinds of data container; every subset of symbolic coefficients on every support "
             "substituted by 0 or 2; constant-rewriting mappers sending every non-empty subset of a "
-            "polynomial's coefficient values to 0 or 3 (the rest stays the same object); Euclid/gcd/lcm on "
+            "polynomial's coefficient values to 0 or 3 (the rest stays the same object) and mappers c -> c*f + a whose two extra "
+            "arguments are passed positionally / mixed / by keyword; fft and sym_fft with the signs "
+            "2, -2, 3, -3, 0 on the same lengths and vectors; Euclid/gcd/lcm on "
             "the full integer box and on every ordered pair of polynomials of degree <= 2 over "
             "{-1,0,1,2}; fft/ifft/sym_fft for EVERY length up to the bound on every unit vector "
             "(the transform is linear) and two dense vectors, both signs; the like-term merge on "
@@ -1372,6 +1440,9 @@ class C19(Check):
         "complex128 (the fallback the code documents); with complex_dtype given, or for complex "
         "input, the result must be accurate to that type's precision (1e-5 / 1e-9 relative to "
         "max(1, ||x||_1)); for length 1 the input itself is returned and no dtype is demanded",
+        "fft's sign may be any integer: the documented definition z = exp(-2 i pi sign / n) is "
+        "demanded for sign in {2, -2, 3, -3, 0} as well; extra arguments of a mapper call must "
+        "reach the coefficient rewriting whether they are passed positionally or by keyword",
         "a mapper that rewrites coefficients (also to 0, also only the leading ones) must return "
         "a polynomial denoting the rewritten polynomial; explicit zero coefficients in its Data are "
         "accepted; symbolic results are read with a_e = e + 5, so that a coefficient that should "
@@ -1406,6 +1477,7 @@ class C19(Check):
             ("euclid-int", lambda: self.gen_euclid_int(tier)),
             ("euclid-poly", self.gen_euclid_poly),
             ("fft", lambda: self.gen_fft(tier)),
+            ("fft-sign", lambda: self.gen_fft_sign(tier)),
             ("sortuniq", lambda: self.gen_sortuniq(tier)),
             ("poly-unary", lambda: self.gen_unary(tier)),
             ("poly-pair", lambda: self.gen_pairs(tier)),
@@ -1476,6 +1548,12 @@ class C19(Check):
         for n in FFT_HIST3_LENGTHS[tier]:
             for seq in itertools.product(alphabet, repeat=3):
                 yield ("probe", "fft-history", n, *seq)
+
+    def gen_fft_sign(self, tier):
+        for n in range(1, FFT_MAX_LEN[tier] + 1):
+            for vid in range(n + 2):
+                for sign in FFT_OTHER_SIGNS:
+                    yield ("probe", "fft-sign", n, vid, sign)
 
     def gen_fft(self, tier):
         for n in range(1, FFT_MAX_LEN[tier] + 1):
@@ -1559,7 +1637,7 @@ class C19(Check):
                 report(r, "scalar", [op, dom, a, s])
         report(r, "scalar", ["mulbase", dom, a, 0])
         if dom == "Z":
-            for m in (*MAPPERS, *rewrite_names(a)):
+            for m in (*MAPPERS, *rewrite_names(a), *affine_names()):
                 report(r, "map", [m, a])
             for entry in ENTRIES:
                 for pt in POINTS:
